@@ -114,6 +114,15 @@ func (tq *WorkerTaskQueue) WaitForNoActiveTasks() {
 func (tq *WorkerTaskQueue) worker(executor Executor) {
 	targetWork := 1
 	for {
+		// thaw frozen peers on schedule even when the workers never run out of tasks:
+		// otherwise a peer frozen by a cancel is starved for as long as other peers keep the workers busy
+		select {
+		case <-tq.ticker.C:
+			tq.lockTopics.Lock()
+			tq.PeerTaskQueue.ThawRound()
+			tq.lockTopics.Unlock()
+		default:
+		}
 		tq.lockTopics.Lock()
 		pid, tasks, _ := tq.PeerTaskQueue.PopTasks(targetWork)
 		tq.lockTopics.Unlock()
